@@ -60,7 +60,7 @@ def gen(chk, mpmath, rng):
                 v1 = mp.quadts(f, [A, B]); v2 = mp.quadgl(f, [A, B])
                 yield ex.le(ex.ab(ex.sub(v1, v2)), ex.mul(ex.pow2(10 - p), ex.mx(ex.ab(v1), 1))), {"key": "ts-vs-gl", "cs": [str(c) for c in cs], "p": p,
                                                                                                    "what": "tanh-sinh and Gauss-Legendre disagree"}
-        except (ZeroDivisionError, ValueError):
+        except (ZeroDivisionError, ValueError, TypeError):
             yield None
 
 
